@@ -87,9 +87,13 @@ func reencode(b []byte, how int) []byte {
 	case 1: // compact, members sorted
 		out, _ := json.Marshal(v)
 		return out
-	case 2: // members in reverse order, every string fully \u-escaped, odd whitespace
+	case 2: // members in reverse order, odd whitespace
 		var buf bytes.Buffer
-		writeReversed(&buf, v)
+		writeReversed(&buf, v, false)
+		return buf.Bytes()
+	case 4: // the same with every string fully \u-escaped
+		var buf bytes.Buffer
+		writeReversed(&buf, v, true)
 		return buf.Bytes()
 	case 3: // tabs
 		out, _ := json.MarshalIndent(v, "\t", "\t\t")
@@ -113,7 +117,14 @@ func escAll(s string) string {
 	return b.String()
 }
 
-func writeReversed(b *bytes.Buffer, v any) {
+func writeReversed(b *bytes.Buffer, v any, esc bool) {
+	str := func(s string) string {
+		if esc {
+			return escAll(s)
+		}
+		o, _ := json.Marshal(s)
+		return string(o)
+	}
 	switch x := v.(type) {
 	case map[string]any:
 		keys := make([]string, 0, len(x))
@@ -126,9 +137,9 @@ func writeReversed(b *bytes.Buffer, v any) {
 			if i > 0 {
 				b.WriteString(" ,\t")
 			}
-			b.WriteString(escAll(k))
+			b.WriteString(str(k))
 			b.WriteString(" :  ")
-			writeReversed(b, x[k])
+			writeReversed(b, x[k], esc)
 		}
 		b.WriteString("\n}")
 	case []any:
@@ -137,11 +148,11 @@ func writeReversed(b *bytes.Buffer, v any) {
 			if i > 0 {
 				b.WriteString(",\n")
 			}
-			writeReversed(b, e)
+			writeReversed(b, e, esc)
 		}
 		b.WriteString("]")
 	case string:
-		b.WriteString(escAll(x))
+		b.WriteString(str(x))
 	case json.Number:
 		b.WriteString(x.String())
 	default:
@@ -284,7 +295,7 @@ func sniffGen(g *G, tier string) []M {
 					if err != nil {
 						continue
 					}
-					how := g.Int(4)
+					how := g.Int(5)
 					inputs = append(inputs, sniffInput(reencode(b, how), fmt.Sprintf("writer:%s:indent%d:reenc%d", f, indent, how), string(f)))
 				} else {
 					b, src := g.sniffBytes()
